@@ -4,6 +4,7 @@ From SV Require Import Lib.Base Gen.Consts.
 From SV Require Import Model.PollAt Proofs.PollAtProofs.
 From SV Require Import Model.Seq32 Model.Assembler Model.TcpBuf Model.TcpTypes Model.Tcp.
 From SV Require Import Proofs.TcpSendBase Proofs.TcpLiveBase Proofs.TcpLiveProofs Proofs.TcpLiveMore.
+From SV Require Import Proofs.TcpLiveProgress.
 From SV Require Import Props.C02.
 
 Check (C02_inv_initial : forall rx tx cc ts s,
@@ -67,3 +68,31 @@ Check (C02_example_zero_window :
                tcp_reachable s /\ tcp_need s /\
                ex_view s = (Established, TZeroWindowProbe 1000000 1000000, 3, 1001, 1001, 0) /\
                tcp_poll_at (ex_cx 2000) s = Ok (Tcp.PTime 1000000)).
+
+Check (C02_progress_deadline_bounded_partial : forall now cx s p,
+  tcp_reachable_at now s -> tcp_need s -> tcp_poll_at cx s = Ok p ->
+  p = Tcp.PNow \/ exists t, p = Tcp.PTime t /\ t <= now + tcp_RTTE_MAX_RTO * 1000).
+
+Check (C02_progress_rto_retransmits_partial : forall cx s e s' res tags,
+  tcp_live_inv s -> tcp_need s ->
+  s_timer s = TRetransmit e -> e <= cx_now cx ->
+  s_timeout s = None ->
+  (forall t, s_tuple s = Some t -> tu_local_addr t = cx_addr cx) ->
+  (0 < rb_len (s_tx_buffer s) -> s_remote_win_len s <> 0) ->
+  mss_ok cx s ->
+  tcp_dispatch cx s true = Ok (s', res, tags) ->
+  exists ip repr,
+    res = DSent (ip, repr) /\
+    r_seq_number repr = s_local_seq_no s /\ 0 < repr_segment_len repr /\
+    (exists e', s_timer s' = TRetransmit e' /\
+                cx_now cx < e' <= cx_now cx + tcp_RTTE_MAX_RTO * 1000) /\
+    s_local_seq_no s' = s_local_seq_no s /\ s_state s' = s_state s).
+
+Check (C02_progress_snd_una_follows_ack_partial : forall cx s ip r s' reply tags a,
+  ctx_ok cx -> seg_ok r -> tcp_live_inv s ->
+  tcp_process cx s ip r = Ok (s', reply, tags) ->
+  length tags = 7%nat -> r_ack_number r = Some a ->
+  s_local_seq_no s' = a /\
+  (a = s_local_seq_no s \/ seq_lt (s_local_seq_no s) a = true)).
+
+Check (C02_example_rto_step : ex_rto_step = Some (1001, 3, 3, TRetransmit 3002000, 1001)).
